@@ -180,6 +180,7 @@ CLASSES = {
 # attribute / method access on statically untyped values (e.g. elements of a locally built list): node vocabulary
 ANY_ATTRS = dict(NODE_ATTRS)
 ANY_ATTRS.update({"__cause__": ANY, "partial_state": ANY, "_partial_state": ANY, "pause_info": ANY, "error": ANY, "status": ANY})
+ANY_ATTRS.update({"__name__": STR})  # class / function names in messages
 ANY_ATTRS.update({"supports_async_nodes": BOOL, "supports_cycles": BOOL, "supports_interrupts": BOOL})  # RunnerCapabilities flags
 ANY_ATTRS.update({"nodes": DICT(STR, DICT(STR, ANY))})  # networkx node table read as a mapping id -> attribute dict (viz helpers)
 ANY_ATTRS.update({"current_span_id": SEQ(ANY)})  # executor slot for the running node's span id (a one-element list)
